@@ -151,6 +151,8 @@ func uriSurface(w *core.Worker, rr *core.Rand, in []byte) {
 	guardFn(w, "PsipURI.Truncate/Reset", in, func() string { cp.Truncate(); _ = cp.Long(); cp.Reset(); return "" })
 }
 
+var dirtyURI = []byte("sips:" + strings.Repeat("u", 300) + ":" + strings.Repeat("p", 200) + "@" + strings.Repeat("h", 300) + ":5099;ttl=3;maddr=h;user=phone;method=X;transport=tcp;lr?old=1&older=2")
+
 // cmpSurface exercises the comparison entry points on two byte strings.
 func cmpSurface(w *core.Worker, rr *core.Rand, a, b []byte) {
 	fl := sipsp.URICmpFlags(rr.Intn(64))
@@ -164,7 +166,23 @@ func cmpSurface(w *core.Worker, rr *core.Rand, a, b []byte) {
 	})
 	guardFn(w, "URIParseCmp", a, func() string {
 		var r1, r2 sipsp.PsipURI
-		_, _, _ = sipsp.URIParseCmp(a, b, fl, &r1, &r2)
+		if rr.Bool() {
+			// r1/r2 are outputs only: whatever an earlier, longer URI left in them (every
+			// component set, far beyond the end of a and b) must not matter
+			sipsp.ParseURI(dirtyURI, &r1)
+			sipsp.ParseURI(dirtyURI, &r2)
+		}
+		_, perr, _ := sipsp.URIParseCmp(a, b, fl, &r1, &r2)
+		for _, u := range []*sipsp.PsipURI{&r1, &r2} {
+			if perr != 0 {
+				break // after an error the outputs are unspecified
+			}
+			for _, f := range []sipsp.PField{u.Scheme, u.User, u.Pass, u.Host, u.Port, u.Params, u.Headers} {
+				if lim := len(a) + len(b); int(f.Offs)+int(f.Len) > lim {
+					return fmt.Sprintf("URIParseCmp handed back a URI with field %v beyond both inputs (len %d, %d)", f, len(a), len(b))
+				}
+			}
+		}
 		_, _, _ = sipsp.URIParseCmp(a, b, fl, nil, &r2)
 		return ""
 	})
